@@ -4,7 +4,7 @@ interpreter (vlib/qbref.py), for all values of the symbolic inputs."""
 import props.catalog_all  # noqa: F401
 from vlib import harness as H
 from vlib.runner import run_property
-from props.common import (cell_obligations, rot, seed, COMMON_ASSUMPTIONS,
+from props.common import (cell_obligations, select_cells, rot, seed, COMMON_ASSUMPTIONS,
                           REAL_FUNCTIONS)
 from props import findings
 
@@ -15,7 +15,8 @@ def check_call(cell, cfg, args):
 
 
 def generate(tier):
-    cells = [c for c in H.CATALOG.values() if c.ref]
+    cells = select_cells('C01', tier,
+                         [c for c in H.CATALOG.values() if c.ref], 3)
     if tier == 'quick':
         cfgs = lambda c: [rot(c.cid, seed(), 6)]  # noqa: E731
         timeout = 90
